@@ -169,7 +169,8 @@ class CHECK(FloCheck):
                "time is exact: tick period and timeouts are multiples of 1/8 s",
                "marks: after every tick the stamp of every marked share and stamp/used/data of every mark are read from "
                "share.marks of the real store and compared (record K)"]
-    PARTIAL = ["verbs outside the interpreted subset (server, logger, rear/raze, fiats/slaves, clones, `by <marker>` keys, "
+    PARTIAL = ["verbs outside the interpreted subset (server, logger, rear/raze, fiats/slaves, insular clones (`as mine`), clones of "
+               "clones, `via` inodes, `by <marker>` keys, "
                "do-deeds other than the recorder, `bid … at period`) are not interpreted",
                "actions that raise are not modelled; RecursionError of cyclic auxiliaries is Err.depth and is not generated"]
     TECHNIQUE = ("translation-validation style differential testing of the real Builder/Skedder against a Lean 4 reference "
